@@ -190,8 +190,15 @@ func runC11(c *ctx) {
 			continue
 		}
 		// distinct included IDs (the property's domain)
+		numeric := []string{"7", "007", "+7", "10", "2", "1a", "1", "01", "-0", "0", "1e1", "0x7", " 7", "7.0", "９"}
+		shuffle(c.r, numeric)
+		useNumeric := c.r.chance(1, 3) && len(d.included) <= len(numeric)
 		for j := range d.included {
 			d.included[j].ops[0] = setOp{"id", fmt.Sprintf("inc-%d", (j*7+3)%len(d.included))}
+			if useNumeric {
+				// IDs an implementation might order as numbers
+				d.included[j].ops[0] = setOp{"id", numeric[j]}
+			}
 		}
 		c11Case(c, d, "random")
 	}
